@@ -1,4 +1,120 @@
-From ZV Require Import Base.Bytes DBus.Spec.
-Theorem C03_placeholder : padn 5 4 = 3%N.
-Proof. reflexivity. Qed.
-Print Assumptions C03_placeholder.
+(* Properties/C03.v — the D-Bus decoder accepts exactly the valid encodings (soundness half; the completeness
+   half is C02).  Model: DBus/De.v (mirror of zvariant::dbus::Deserializer + the dynamic Value visitors);
+   specification: DBus/Spec.v ([marshal], [wf], [depth_ok]).  Statements only.
+   wfL = Spec.wf minus the grammar clauses on signatures occurring inside the value (DBus/DeSoundDefs.v);
+   sigs_strict = exactly those clauses; sigs_nest_ok = the specification's nesting limit for signatures;
+   sig_lenient v = negb (sigs_strict v) || negb (sigs_nest_ok v) is the known-deviation class. *)
+From ZV Require Import Base.Bytes Base.Res Base.Sig Base.SigParse DBus.Val DBus.Spec DBus.Ser DBus.De DBus.Run
+                       DBus.DeSoundDefs DBus.DeSound DBus.DeSoundTop.
+Local Open Scope N_scope.
+
+(* the full statement: whatever Data::deserialize::<Value>() accepts is a valid encoding of the value returned,
+   all of whose signatures are D-Bus signatures.  FALSE of the code as it is (C03_sigs_refuted). *)
+Definition C03_full_statement : Prop :=
+  forall c e pos nf (b : bytes) x n, c_gv c = false -> de_value_top c e pos b (seqN nf) = Ok (x, n) ->
+    (wf (VVariant x) = true /\ within_limits (VVariant x) = true /\
+     Forall (fun h => h < nf) (fds_of (VVariant x)) /\ n <= len b /\ takeN n b = marshal_rx e pos (VVariant x)) /\
+    sigs_nest_ok (VVariant x) = true.
+
+(* for every fuel, buffer, cursor, offset, byte order, depth counters, descriptor count and signature whose structs
+   are non-empty: a success moves only the cursor, stays inside the buffer, returns a value of the signature that is
+   well-formed as far as the decoder checks, within the nesting limits counted from the current depth, whose
+   descriptor handles are in range, and the bytes consumed are exactly its marshalling at that position *)
+Theorem C03_sound_lenient : forall (fuel : nat) (st : dstate) (v : dval) (st' : dstate) (nf : N),
+  sig_ne (t_sig st) = true -> t_fds st = seqN nf -> de_any fuel st = Ok (v, st') ->
+  (t_cfg st' = t_cfg st /\ t_e st' = t_e st /\ t_pos0 st' = t_pos0 st /\ t_bytes st' = t_bytes st /\
+   t_sig st' = t_sig st /\ t_fds st' = t_fds st /\ t_dep st' = t_dep st) /\
+  t_pos st <= t_pos st' /\ t_pos st' <= blen st /\
+  vsig v = t_sig st /\ wfL v = true /\
+  depth_ok (d_struct (t_dep st)) (d_array (t_dep st)) (d_variant (t_dep st)) v = true /\
+  Forall (fun h => h < nf) (fds_of v) /\
+  takeN (t_pos st' - t_pos st) (dropN (t_pos st) (t_bytes st)) = marshal (t_e st) ByHandle v (tabs st) 0.
+Proof. exact de_sound. Qed.
+Print Assumptions C03_sound_lenient.
+
+(* Data::deserialize::<Value>() on arbitrary bytes, any configuration *)
+Theorem C03_value_sound_lenient : forall c e pos (b : bytes) nf x n,
+  de_value_top c e pos b (seqN nf) = Ok (x, n) ->
+  wfL (VVariant x) = true /\ within_limits (VVariant x) = true /\
+  Forall (fun h => h < nf) (fds_of (VVariant x)) /\ n <= len b /\ takeN n b = marshal_rx e pos (VVariant x).
+Proof. exact de_value_top_sound. Qed.
+Print Assumptions C03_value_sound_lenient.
+
+(* deserialize_for_dynamic_signature::<Structure>(g) on arbitrary bytes *)
+Theorem C03_body_sound_lenient : forall c e pos g (b : bytes) nf v n, sig_ne g = true ->
+  de_struct_top c e pos g b (seqN nf) = Ok (v, n) ->
+  vsig v = (match g with SStruct _ => g | _ => SStruct [g] end) /\
+  (wfL v = true /\ within_limits v = true /\ Forall (fun h => h < nf) (fds_of v) /\ n <= len b /\
+   takeN n b = marshal_rx e pos v).
+Proof. exact de_struct_top_sound. Qed.
+Print Assumptions C03_body_sound_lenient.
+
+(* wfL and sigs_strict split Spec.wf exactly *)
+Theorem C03_wf_split : forall v, wf v = wfL v && sigs_strict v.
+Proof. exact wf_split. Qed.
+Print Assumptions C03_wf_split.
+
+(* outside the known class the full statement holds *)
+Theorem C03_sound_partial : forall c e pos (b : bytes) nf x n,
+  de_value_top c e pos b (seqN nf) = Ok (x, n) -> sig_lenient (VVariant x) = false ->
+  (wf (VVariant x) = true /\ within_limits (VVariant x) = true /\
+   Forall (fun h => h < nf) (fds_of (VVariant x)) /\ n <= len b /\ takeN n b = marshal_rx e pos (VVariant x)) /\
+  sigs_nest_ok (VVariant x) = true.
+Proof. exact value_sound_strict. Qed.
+Print Assumptions C03_sound_partial.
+
+Theorem C03_body_sound_partial : forall c e pos g (b : bytes) nf v n, sig_ne g = true ->
+  de_struct_top c e pos g b (seqN nf) = Ok (v, n) -> sig_lenient v = false ->
+  vsig v = (match g with SStruct _ => g | _ => SStruct [g] end) /\
+  (wf v = true /\ within_limits v = true /\ Forall (fun h => h < nf) (fds_of v) /\ n <= len b /\
+   takeN n b = marshal_rx e pos v) /\
+  sigs_nest_ok v = true.
+Proof. exact struct_sound_strict. Qed.
+Print Assumptions C03_body_sound_partial.
+
+(* known finding sig_grammar_lenient: (a) a variant of type a{vs} holding an empty dict, (b) a variant whose
+   signature nests 33 arrays — both accepted without the gvariant feature *)
+Theorem C03_sigs_refuted :
+  (exists c e pos nf b x n, c_gv c = false /\ de_value_top c e pos b (seqN nf) = Ok (x, n) /\
+                            wf (VVariant x) = false /\ sigs_strict (VVariant x) = false) /\
+  (exists c e pos nf b x n, c_gv c = false /\ de_value_top c e pos b (seqN nf) = Ok (x, n) /\
+                            sigs_nest_ok (VVariant x) = false).
+Proof. exact sigs_refuted. Qed.
+Print Assumptions C03_sigs_refuted.
+
+Theorem C03_full_statement_refuted : ~ C03_full_statement.
+Proof. exact full_refuted. Qed.
+Print Assumptions C03_full_statement_refuted.
+
+(* the oracle column of DBus/Run.v decides "the buffer starts with a valid encoding of a variant", given the
+   completeness of the decoder model (C02: de_value_top_complete) as an explicit premise *)
+Theorem C03_decision_correct :
+  (forall c e pos (b : bytes) (fds : list N) x rest,
+     wf (VVariant x) = true -> within_limits (VVariant x) = true ->
+     len (marshal_rx e pos (VVariant x)) < 2 ^ 32 -> N.of_nat (length fds) <= 2 ^ 32 ->
+     Forall (fun h => nthN fds h = Some h) (fds_of (VVariant x)) ->
+     b = marshal_rx e pos (VVariant x) ++ rest ->
+     de_value_top c e pos b fds = Ok (x, len (marshal_rx e pos (VVariant x)))) ->
+  forall c e pos nf (b : bytes), nf <= 2 ^ 32 -> len b < 2 ^ 32 ->
+    (spec_de e pos VVariant b (de_value_top c e pos b (seqN nf)) = B "OK" <->
+     exists x n, wf (VVariant x) = true /\ within_limits (VVariant x) = true /\
+                 Forall (fun h => h < nf) (fds_of (VVariant x)) /\ n <= len b /\
+                 takeN n b = marshal_rx e pos (VVariant x)).
+Proof. exact spec_de_value_correct. Qed.
+Print Assumptions C03_decision_correct.
+
+(* the same for a message body of signature (fs) (C02: de_struct_top_complete) *)
+Theorem C03_body_decision_correct :
+  (forall c e pos (b : bytes) (fds : list N) l rest,
+     wf (VStruct l) = true -> within_limits (VStruct l) = true ->
+     len (marshal_rx e pos (VStruct l)) < 2 ^ 32 -> N.of_nat (length fds) <= 2 ^ 32 ->
+     Forall (fun h => nthN fds h = Some h) (fds_of (VStruct l)) ->
+     b = marshal_rx e pos (VStruct l) ++ rest ->
+     de_struct_top c e pos (vsig (VStruct l)) b fds = Ok (VStruct l, len (marshal_rx e pos (VStruct l)))) ->
+  forall c e pos nf fs (b : bytes), nf <= 2 ^ 32 -> len b < 2 ^ 32 -> sig_ne (SStruct fs) = true ->
+    (spec_de e pos (fun v => v) b (de_struct_top c e pos (SStruct fs) b (seqN nf)) = B "OK" <->
+     exists v n, vsig v = SStruct fs /\
+                 (wf v = true /\ within_limits v = true /\ Forall (fun h => h < nf) (fds_of v) /\ n <= len b /\
+                  takeN n b = marshal_rx e pos v)).
+Proof. exact spec_de_struct_correct. Qed.
+Print Assumptions C03_body_decision_correct.
